@@ -224,6 +224,9 @@ def generate(streams: Streams, tier: str, index: int) -> dict:
                         "refine_args": trk_opts.get("refine_args") if rng.random() < 0.5 else
                         {"least_squares_params": {"max_nfev": 6}},
                         "minimal_radius": rng.choice([0, 0, 0.5, -1]),
+                        # the simulation state may be a collection of fields of which one is
+                        # analysed (selected by index, also index 0, or by a callable)
+                        "source": rng.choice([None, None, None, None, 0, 1, "callable"]),
                         "length_method": rng.choice(["structure_factor_mean",
                                                      "structure_factor_maximum", "droplet_detection"])},
             "tracking": {"method": rng.choice(["overlap", "distance"]), "grid": rng.random() < 0.5,
@@ -421,18 +424,31 @@ def execute(case: dict) -> Outcome:
     tk = case["tracker"]
     if fields:
         tk_modes = tk.get("modes", 0) if dim in (2, 3) else 0
-        dt = droplets.DropletTracker(1, threshold=tk["threshold"], refine=tk["refine"],
+        src = tk.get("source")
+        source = (lambda fc: fc[1]) if src == "callable" else src
+
+        def state_of(fld):
+            if src is None:
+                return fld.copy()
+            from pde import FieldCollection
+
+            other = fld.copy()
+            other.data[...] = 1 - other.data
+            return FieldCollection([fld.copy(), other] if src == 0 else [other, fld.copy()])
+
+        dt = droplets.DropletTracker(1, threshold=tk["threshold"], refine=tk["refine"], source=source,
                                      minimal_radius=tk.get("minimal_radius", 0),
                                      perturbation_modes=tk_modes,
                                      refine_args=copy.deepcopy(tk.get("refine_args")) or
                                      {"least_squares_params": {"max_nfev": 6}})
-        lt = droplets.LengthScaleTracker(1, method=tk["length_method"])
-        ok, _ = guard("tracker.initialize", lambda: (dt.initialize(fields[0][1], {}),
-                                                     lt.initialize(fields[0][1], {})))
+        lt = droplets.LengthScaleTracker(1, method=tk["length_method"], source=source)
+        ok, _ = guard("tracker.initialize", lambda: (dt.initialize(state_of(fields[0][1]), {}),
+                                                     lt.initialize(state_of(fields[0][1]), {})))
         for t, (fi, fld) in enumerate(fields):
-            ok, _ = guard("DropletTracker.handle", lambda: dt.handle(fld.copy(), float(t)),
-                          {"threshold": str(tk["threshold"]), "refine": str(tk["refine"])})
-            ok2, _ = guard("LengthScaleTracker.handle", lambda: lt.handle(fld.copy(), float(t)))
+            ok, _ = guard("DropletTracker.handle", lambda: dt.handle(state_of(fld), float(t)),
+                          {"threshold": str(tk["threshold"]), "refine": str(tk["refine"]),
+                           "source": str(src)})
+            ok2, _ = guard("LengthScaleTracker.handle", lambda: lt.handle(state_of(fld), float(t)))
             cells.append(("tracker", fam, dim, case["frames"][fi].get("tag", "scene")))
         msg = None
         for em in dt.data.emulsions:
